@@ -2299,3 +2299,51 @@ V("C25-remote-write-error-left-to-close","C25",PRM,"""	_, err = w.Write(obj.Payl
 	}
 ""","""	_, _ = w.Write(obj.Payload())
 """,rule="C25.R9")
+# ---- round 5
+V("C36-kept-key-skips-comparison","C36",GL,"""	for i := range innerRing {
+		for j := range before {""","""	for i := range innerRing {
+		if after.Contains(innerRing[i]) {
+			result = append(result, innerRing[i])
+			continue
+		}
+		for j := range before {""",rule="C36.R4")
+V("C36-comparison-loop-by-index","C36",GL,"""		for j := range before {
+			if innerRing[i].Equal(before[j]) {""","""		for j := 0; j < lnBefore; j++ {
+			if innerRing[i].Equal(before[j]) {""",expect="silent")
+V("C16-batch-delete-ranges-over-addresses","C16",WC+"flush.go","""	for addr := range objs {
+		storagelog.Write(c.log,""","""	for _, addr := range addrs {
+		storagelog.Write(c.log,""",rule="C16.R6")
+V("C16-batch-delete-keys-with-values","C16",WC+"flush.go","""	for addr := range objs {
+		storagelog.Write(c.log,""","""	for addr, data := range objs {
+		_ = data
+		storagelog.Write(c.log,""",expect="silent")
+V("C29-payload-only-skips-recheck","C29","pkg/services/object/get.go","""	var sent bool
+	x.onceHdr.Do(func() {""","""	if x.suppressInit {
+		return false, nil
+	}
+
+	var sent bool
+	x.onceHdr.Do(func() {""",rule="C29.R8")
+V("C29-scan-error-wrapped","C29","pkg/services/object/get.go","""	err := protoscan.ScanMessage(buffers, protoscan.ObjectGetResponseInitScheme, opts)
+	if err != nil {
+		return false, err
+	}""","""	err := protoscan.ScanMessage(buffers, protoscan.ObjectGetResponseInitScheme, opts)
+	if err != nil {
+		return false, fmt.Errorf("scan heading part: %w", err)
+	}""",expect="silent")
+V("C10-window-moved-to-buffer-end","C10",FH,"				n = copy(buf, buf[offset:n])","				n = copy(buf, buf[offset:])",rule="C10.R6")
+V("C10-refill-moved-to-buffer-end","C10",FH,"			n = copy(buf, buf[min(offset, n):n])","			n = copy(buf, buf[min(offset, n):])",rule="C10.R6")
+V("C10-window-moved-named-bounds","C10",FH,"				n = copy(buf, buf[offset:n])","""				rest := buf[offset:n]
+				n = copy(buf, rest)""",expect="silent")
+V("C05-hand-rolled-word-parser","C05",S2,"""		v, err := strconv.ParseUint(digits, 10, 64)
+		if err == nil {""","""		var v uint64
+		var err error
+		for i := range digits {
+			d := v*10 + uint64(digits[i]-'0')
+			if d < v {
+				_, err = strconv.ParseUint(digits, 10, 64)
+				break
+			}
+			v = d
+		}
+		if err == nil {""",rule="C05.R8")
